@@ -199,6 +199,14 @@ ADDED6 = {
 }
 for k,v in ADDED6.items():
     CLAIMS[k]["text"] = CLAIMS[k]["text"] + v
+ADDED7 = {
+ "C01": " The nesting counter used at a self-feeding site belongs to an interpreter the routine was handed; a pointer field that the package tests against nil somewhere is not used as another package's receiver without a test (C01-NILFIELD).",
+ "C04": " After a successful count of a nesting level every way out of the routine counts it out (C04-NEST).",
+ "C05": " The undo of a failed declaration also removes the early binding of the name, under completion flags only.",
+ "C13": " On every path the last call before a direct GetNextToken that touches the token stream is a look-ahead (C13-GETWAIT).",
+}
+for k,v in ADDED7.items():
+    CLAIMS[k]["text"] = CLAIMS[k]["text"] + v
 NA_DEFAULT="rules not built yet (build in progress; see DESIGN.md §7)"
 NA = {}
 
